@@ -698,6 +698,43 @@ fn one_op(w: &mut XWorld) -> (String, &'static str, Result<(), String>) {
             }));
             (format!("pointer guard of {} over {} x {} at {}", ["a slice", "a typed reference", "an element array"][which as usize], n, TYPE_NAMES[ti], off), "ptr_guard", r.and_then(|x| x))
         }
+        14 if cx().a(2) == 0 => {
+            // a pointer guard is held while a second, usually longer access in the same direction
+            // starts at the same byte: each of the two needs a mapping that covers its own bytes,
+            // and the held one must stay mapped until it is dropped
+            let n1 = 1 + cx().a(room.min(64) as u32) as usize;
+            let n2 = 1 + cx().a(room.min(6000) as u32) as usize;
+            let wr = cx().a(2) == 0;
+            let data: Vec<u8> = (0..n2).map(newb).collect();
+            let mut buf = vec![0u8; n2];
+            let r = res(catch(|| -> Result<usize, String> {
+                let s = w.region.get_slice(at, n1).map_err(|e| format!("{:?}", e))?;
+                let (gp, g_c, g_m) = if wr {
+                    let g = s.ptr_guard_mut();
+                    (g.as_ptr() as usize, None, Some(g))
+                } else {
+                    let g = s.ptr_guard();
+                    (g.as_ptr() as usize, Some(g), None)
+                };
+                let r = if wr { w.region.write(&data, at) } else { w.region.read(&mut buf, at) }.map_err(|e| format!("{:?}", e));
+                if cx().sys.xen.as_ref().map(|x| x.unmap_failed == 0).unwrap_or(true) {
+                    if let Some(why) = cx().sys.mmu_violation(gp, n1) {
+                        cx().sys.mmu_faults.push(format!("the bytes of the pointer guard of get_slice({}, {}) that is still held are not mapped after another access completed: {}", off, n1, why));
+                    }
+                }
+                drop((g_c, g_m));
+                r
+            }));
+            let ok = match &r {
+                Ok(Ok(m)) if *m == n2 && (wr || buf[..] == w.model[off..off + n2]) => Ok(()),
+                Ok(x) => Err(format!("returned {:?}{}", x, if wr { "" } else { " / wrong data" })),
+                Err(m) => Err(m.clone()),
+            };
+            if ok.is_ok() && wr {
+                w.model[off..off + n2].copy_from_slice(&data);
+            }
+            (format!("{}(buf[{}], {}) while the {} pointer guard of get_slice({}, {}) is held", if wr { "write" } else { "read" }, n2, off, if wr { "mutable" } else { "shared" }, off, n1), "access under a held guard", ok)
+        }
         15 => {
             // the region's bytes written straight to a descriptor (the syscall buffer must stay mapped during write(2))
             let n = 1 + cx().a(room.min(5000) as u32) as usize;
